@@ -90,3 +90,147 @@ def person_dict(fullname_hex):
     if fullname_hex is None:
         return None
     return {"fullname": bytes.fromhex(fullname_hex), "name": None, "email": None}
+
+
+# ---------------------------------------------------------------- added by the C03/C04 dimension audit
+# (the helpers above are unchanged; these only ADD shapes that gen_bytes / gen_date / gen_fullname never draw)
+WIDE_KINDS = ["crlf", "cr", "cr_nl_mix", "nul", "tabcont", "only_nl", "two_nl", "sp", "trail_sp", "nl_sp_end", "sp_nl",
+              "seps", "u2028", "hdrlike", "manylines", "kb", "nl_run"]
+
+
+def gen_bytes_wide(rng, kind=None):
+    """gen_bytes, plus: CR / CRLF (bytes.splitlines boundaries), NUL, a TAB- or SP-started continuation line, lone
+    separators, the other 'line boundary' code points of str.splitlines, header look-alikes, more than 100 lines, ~1 kB"""
+    if kind is None and rng.random() < 0.55:
+        return gen_bytes(rng)
+    kind = kind or rng.choice(WIDE_KINDS)
+    if kind in ("kb", "manylines") and rng.random() < 0.75:      # the two big shapes: rarer
+        kind = rng.choice(WIDE_KINDS[:14])
+    if kind == "crlf":
+        return rng.choice([b"line1\r\nline2\r\n", b"-----BEGIN-----\r\n\r\nab\r\n-----END-----", b"a\r\nb"])
+    if kind == "cr":
+        return rng.choice([b"a\rb", b"\r", b"x\r"])
+    if kind == "cr_nl_mix":
+        return rng.choice([b"a\rb\nc", b"a\n\rb", b"\r\n", b"a\r\n b"])
+    if kind == "nul":
+        return rng.choice([b"a\x00b", b"\x00", b"x\x00", b"\x00\n\x00"])
+    if kind == "tabcont":
+        return rng.choice([b"a\n\tb", b"\tlead", b"a\n\t"])
+    if kind == "only_nl":
+        return b"\n"
+    if kind == "two_nl":
+        return rng.choice([b"\n\n", b"x\n\n", b"\n\n\n"])
+    if kind == "sp":
+        return rng.choice([b" ", b"  "])
+    if kind == "trail_sp":
+        return rng.choice([b"x ", b"a\nb "])
+    if kind == "nl_sp_end":
+        return rng.choice([b"x\n ", b"\n "])
+    if kind == "sp_nl":
+        return rng.choice([b" \n", b" \n "])
+    if kind == "seps":
+        return b"a\x0bb\x0cc\x1cd\x1de\x1ef\x85g"
+    if kind == "u2028":
+        return "a\u2028b\u2029c\x85d".encode()
+    if kind == "hdrlike":
+        return rng.choice([b"x\nparent 0123\ntree 4567\n\nmsg", b"x\ntagger T <t> 1 +0000\n\nbody", b"\nobject 00\ntype commit"])
+    if kind == "manylines":
+        return b"\n".join([rng.choice([b"l", b"", b" m"]) for _ in range(rng.randrange(101, 300))])
+    if kind == "nl_run":
+        return b"\n" * rng.randrange(3, 40)
+    return bytes(rng.choice(b"ab \n\r") for _ in range(rng.randrange(1000, 1100)))
+
+
+def gen_fullname_wide(rng):
+    if rng.random() < 0.6:
+        return gen_fullname(rng)
+    return rng.choice([b"A\r\nB <x@y>", b"N\x00UL <n@u.l>", b"<>", b" ", b"Jane Doe <>", b" <e>", b"name <a@b> 1234567890 +0000",
+                       b"x\n", b"\n", b"a\n b", b"a\n\tb", b"x " * 150, b"\xe2\x80\xa8", b"trailing space "])
+
+
+def gen_date_wide(rng):
+    """gen_date, plus digit-count boundaries of seconds / microseconds and more offset-byte shapes"""
+    if rng.random() < 0.6:
+        return gen_date(rng)
+    s = rng.choice([TS_MIN + 1, TS_MAX - 1, 2 ** 31 - 1, 2 ** 31, 2 ** 32, 2 ** 33, -2 ** 31, 10 ** 9, 999999999, 9, 10, -9, -10, 99, 100,
+                    -62135510961, 253402297199, 0])
+    us = rng.choice([0, 1, 9, 99, 999, 99999, 999990, 999900, 100, 1000, 10000, 900000, 90, 909090, 5])
+    off = rng.choice([b"+1400", b"-1200", b"+0530", b"+9959", b"-0059", b"+2", b"\n", b" ", b"+01\r\n", b"+0100 extra", b"\x00",
+                      b"+0000", b"-0000", b"+0060", b"a\n b", b"-"])
+    return [s, us, off.hex()]
+
+
+def gen_id(rng, pool=()):
+    """an object id as the model accepts it (Sha1Git = bytes, no length check): mostly 20 random bytes, sometimes git's
+    null id, an id sharing all but its last / first byte with one already in the object (memo keys), 1 or 32 bytes"""
+    x = rng.random()
+    pool = [p for p in pool if len(p) >= 2]
+    if x < 0.66 or (not pool and 0.75 <= x < 0.90):
+        return bytes(rng.randrange(256) for _ in range(20))
+    if x < 0.75:
+        return bytes(20)
+    if x < 0.84:
+        b = rng.choice(pool)
+        return b[:-1] + bytes([b[-1] ^ 1])
+    if x < 0.90:
+        b = rng.choice(pool)
+        return bytes([b[0] ^ 0x80]) + b[1:]
+    if x < 0.94:
+        return bytes([rng.randrange(1, 256)])
+    if x < 0.98:
+        return bytes(rng.randrange(256) for _ in range(32))
+    return b"\xff" * 20
+
+
+def canonical_offset(off):
+    """(minutes, negative_utc) when the offset bytes are exactly what from_numeric_offset writes, else None"""
+    import re
+    if not re.fullmatch(rb"[+-][0-9]{2}[0-5][0-9]", off):
+        return None
+    n = int(off[1:3]) * 60 + int(off[3:5])
+    if off[:1] == b"-":
+        return (-n, n == 0)
+    return (n, False)
+
+
+LEGACY_DATE_MODES = ["offset", "offset-no-flag", "offset-flag-none", "ts-int", "no-us", "both-keys"]
+
+
+def date_dict_legacy(date, mode):
+    """the same date in one of the dictionary encodings from_dict still accepts (None when this date cannot be
+    written that way): numeric 'offset' (+ 'negative_utc' flag given / absent / None), 'timestamp' as a plain int,
+    'microseconds' key absent, and a row carrying BOTH the recorded offset_bytes and a (contradicting) numeric offset"""
+    if date is None:
+        return None
+    s, us, off = date
+    off = bytes.fromhex(off)
+    ts = {"seconds": s, "microseconds": us}
+    if mode == "both-keys":
+        return {"timestamp": ts, "offset_bytes": off, "offset": 17, "negative_utc": True}
+    if mode == "ts-int":
+        return {"timestamp": s, "offset_bytes": off} if us == 0 else None
+    if mode == "no-us":
+        return {"timestamp": {"seconds": s}, "offset_bytes": off} if us == 0 else None
+    co = canonical_offset(off)
+    if co is None:
+        return None
+    minutes, neg = co
+    if mode == "offset":
+        return {"timestamp": ts, "offset": minutes, "negative_utc": neg}
+    if mode == "offset-no-flag":
+        return None if neg else {"timestamp": ts, "offset": minutes}
+    if mode == "offset-flag-none":
+        return None if neg else {"timestamp": ts, "offset": minutes, "negative_utc": None}
+    return None
+
+
+NOFULLNAME_SPLITS = 6
+
+
+def nofullname_split(fn, i):
+    """(name, email, documented fullname) for a person given WITHOUT fullname: 'name', '<email>' or 'name <email>',
+    an empty name or email still counts"""
+    half = len(fn) // 2
+    name, email = [(fn, None), (None, fn), (fn, b""), (b"", fn), (fn[:half], fn[half:]), (b"", b"")][i % NOFULLNAME_SPLITS]
+    parts = ([name] if name is not None else []) + ([b"<" + email + b">"] if email is not None else [])
+    return name, email, b" ".join(parts)
